@@ -380,12 +380,21 @@ def _cloned_instances(t):
 def element_case(ad, f, r, kind):
     n = designs.build_api(ad)
     defs = [d for l in n.libraries for d in l.definitions]
+    if kind in ('Library', 'Definition', 'Instance') and r.random() < 0.4:
+        # an instance that references no definition (create_child without reference) is a legitimate element of a definition
+        hosts = [d for d in defs if d.children] or defs
+        host = r.choice(hosts)
+        orphan = host.create_child('unref_%d' % r.randrange(1000))
+        f.stats['unreferenced_instances'] = f.stats.get('unreferenced_instances', 0) + 1
+        if kind == 'Instance' and r.random() < 0.5:
+            defs = [host] + [d for d in defs if d is not host]
     if kind == 'Library':
         roots = list(n.libraries)
     elif kind == 'Definition':
         roots = defs[:]
     elif kind == 'Instance':
         roots = [i for d in defs for i in d.children] + [n.top_instance]
+        unref = [i for i in roots if i.reference is None]
     elif kind == 'Port':
         roots = [p for d in defs for p in d.ports]
     elif kind == 'Cable':
@@ -397,6 +406,8 @@ def element_case(ad, f, r, kind):
     else:
         roots = [o for d in defs for i in d.children for o in i.pins]
     r.shuffle(roots)
+    if kind == 'Instance' and unref:
+        roots = unref[:1] + [x for x in roots if x is not unref[0]]
     for root in roots[:4 if kind in ('Library', 'Definition') else 3]:
         objs = irlib.closure([n])
         index = {id(o): i for i, o in enumerate(objs)}
@@ -443,7 +454,12 @@ def element_case(ad, f, r, kind):
             if c.netlist is not None: det.append('netlist')
             st = oracles.diff(oracles.canon_library(root), oracles.canon_library(c))
             f.check(st is None, 'C07.elem-structure', kind, st)
+            src_unref = sum(1 for d_ in root.definitions for i_ in d_.children if i_.reference is None)
+            if sum(1 for i in new_insts if i.reference is None) != src_unref:
+                det.append('number of instances without reference differs from the source')
             for i in new_insts:
+                if i.reference is None:
+                    continue
                 src_ref_inside = i.reference is not None and id(i.reference) in t_c
                 if not src_ref_inside and not (i.reference is not None and id(i.reference) in index):
                     det.append('instance.reference neither cloned nor the source\'s')
